@@ -93,6 +93,11 @@ def run(repo, rep):
     rep.clause("C15-e", "IFM block size arithmetic is axis-consistent")
     rep.undecided("numerical bank arithmetic for all shapes on all six accelerators")
     rep.assume("bank counts, granules, bit widths and block extents are positive")
+    from .shared import mirror_families, module_axis_lint
+
+    module_axis_lint(repo, rep, "C15-e", ['architecture_allocator', 'architecture_features'])
+
+    mirror_families(repo, rep, "C15-c", {('architecture_features', '', 'cls'): 'accelerator configuration table'})
     aa = repo.mod("architecture_allocator")
     gen = repo.mod("register_command_stream_generator")
     api = repo.mod("api")
